@@ -192,8 +192,8 @@ var Descs = []CmdDesc{
 			return []int64{int64(v.Delay)}, true
 		}},
 	{Name: "TXParamSetupReq", Up: false, CID: 0x09, Size: 1, Fields: []Field{
-		{Name: "DownlinkDwellTime", MustLo: 0, MustHi: 1, TypeLo: 0, TypeHi: 1, Enum: []int64{0, 1}},
-		{Name: "UplinkDwellTime", MustLo: 0, MustHi: 1, TypeLo: 0, TypeHi: 1, Enum: []int64{0, 1}}, u8("MaxEIRP", 15)},
+		{Name: "DownlinkDwellTime", MustLo: 0, MustHi: 1, TypeLo: -3, TypeHi: 6},
+		{Name: "UplinkDwellTime", MustLo: 0, MustHi: 1, TypeLo: -3, TypeHi: 6}, u8("MaxEIRP", 15)},
 		ToLib: func(f []int64) lorawan.MACCommandPayload {
 			return &lorawan.TXParamSetupReqPayload{DownlinkDwelltime: lorawan.DwellTime(f[0]), UplinkDwellTime: lorawan.DwellTime(f[1]), MaxEIRP: uint8(f[2])}
 		},
@@ -258,7 +258,7 @@ var Descs = []CmdDesc{
 			return []int64{sec, int64(rem / 3906250)}, true
 		}},
 	{Name: "ForceRejoinReq", Up: false, CID: 0x0e, Size: 2, Fields: []Field{u8("Period", 7), u8("MaxRetries", 7),
-		{Name: "RejoinType", MustLo: 0, MustHi: 2, TypeLo: 0, TypeHi: 255, MustOnlyEven: true}, u8("DR", 15)},
+		{Name: "RejoinType", MustLo: 0, MustHi: 2, TypeLo: 0, TypeHi: 255}, u8("DR", 15)},
 		ToLib: func(f []int64) lorawan.MACCommandPayload {
 			return &lorawan.ForceRejoinReqPayload{Period: uint8(f[0]), MaxRetries: uint8(f[1]), RejoinType: uint8(f[2]), DR: uint8(f[3])}
 		},
@@ -303,7 +303,7 @@ var Descs = []CmdDesc{
 			}
 			return []int64{int64(v.Frequency)}, true
 		}},
-	{Name: "DeviceModeConf", Up: false, CID: 0x20, Size: 1, Fields: []Field{u8("Class", 2)},
+	{Name: "DeviceModeConf", Up: false, CID: 0x20, Size: 1, Fields: []Field{{Name: "Class", MustLo: 0, MustHi: 2, TypeLo: 0, TypeHi: 255, MustOnlyEven: true}},
 		ToLib: func(f []int64) lorawan.MACCommandPayload {
 			return &lorawan.DeviceModeConfPayload{Class: lorawan.DeviceModeClass(f[0])}
 		},
@@ -443,7 +443,7 @@ var Descs = []CmdDesc{
 			}
 			return []int64{b2i(v.BeaconFrequencyOK)}, true
 		}},
-	{Name: "DeviceModeInd", Up: true, CID: 0x20, Size: 1, Fields: []Field{u8("Class", 2)},
+	{Name: "DeviceModeInd", Up: true, CID: 0x20, Size: 1, Fields: []Field{{Name: "Class", MustLo: 0, MustHi: 2, TypeLo: 0, TypeHi: 255, MustOnlyEven: true}},
 		ToLib: func(f []int64) lorawan.MACCommandPayload {
 			return &lorawan.DeviceModeIndPayload{Class: lorawan.DeviceModeClass(f[0])}
 		},
